@@ -582,6 +582,10 @@ def run(ctx: Ctx) -> int:
                       (m["cls"] in ("silent", "error-class", "mask", "raise-on-independent"))
             if inscope:
                 ctx.mismatch(m["site"], m["stratum"], m["case"], m["expected"], m["observed"], m["cls"])
+    if ctx.tier == "thorough":
+        ctx.lift_lemmas([("L_Cross", "Incident", True), ("L_Space", "PlaneIncident", True), ("L_Space", "Klein", True),
+                         ("L_Space", "OnLine", True), ("L_Complex", "Incident", True), ("L_Cross", "Falsified", False),
+                         ("L_Space", "Falsified", False), ("L_Complex", "Falsified", False)])
     ctx.cov["traces_validated_against_impl"] += nrep
     # ---- code -> spec
     nev = 6000 if ctx.tier == "quick" else 60000
